@@ -431,9 +431,12 @@ pub fn c01_case(g: &mut Gen, id: u64, w: &mut impl Write, long: bool, peer: bool
     let mut writers: Vec<Vec<u64>> = vec![vec![]; nrooms as usize];
     // (group, key): keys made user admin of a group without being made room admin
     let mut user_admins: Vec<Vec<(u64, u64)>> = vec![vec![]; nrooms as usize];
-    // room definitions by key 1 (sometimes key 2 creates its own room)
+    // the key that created each room (admin of it, not necessarily of the others)
+    let mut creators: Vec<u64> = vec![];
+    // room definitions by key 1 (often key 2 creates its own room)
     for r in 0..nrooms {
-        let me = if r > 0 && g.chance(1, 4) { 2 } else { 1 };
+        let me = if r > 0 && g.chance(2, 5) { 2 } else { 1 };
+        creators.push(me);
         let prefix = format!("rmut k={} d={} r={}", me, d, r);
         let l = shadows[r as usize].mutation_with(g, 0, me, prefix, true, keys, d);
         writeln!(w, "{}", l).unwrap();
@@ -468,6 +471,9 @@ pub fn c01_case(g: &mut Gen, id: u64, w: &mut impl Write, long: bool, peer: bool
                 user_admins[r as usize].push((gi, x));
             }
         }
+    }
+    for r in 0..nrooms {
+        writeln!(w, "rstored r={}", r).unwrap();
     }
     let steps = if long { 14 + g.below(14) } else { 8 + g.below(10) };
     // shadow of the data: handle -> (entity, room?, author), references
@@ -637,6 +643,31 @@ pub fn c01_case(g: &mut Gen, id: u64, w: &mut impl Write, long: bool, peer: bool
                 writeln!(w, "deladm k={} d={} r={} i=0", k, d, r).unwrap();
             }
             _ => {
+                if g.chance(1, 4) {
+                    // an admin of room A names, inside a mutation of room A, the id of a row that is NOT a group of A:
+                    // a group of ANOTHER room (where it may be nobody), a data row, an admin entry — and hangs itself
+                    // (or a right) under it. The stored definition of every room is observed afterwards.
+                    let a = g.below(nrooms as usize);
+                    let b = (a + 1 + g.below(nrooms as usize - 1)) % nrooms as usize;
+                    let me = if g.chance(4, 5) { creators[a] } else { k };
+                    let mut gb: Vec<u64> = shadows[b].groups[0].iter().copied().collect();
+                    gb.sort();
+                    let target = match g.weighted(&[6, 1, 1]) {
+                        0 if !gb.is_empty() => format!("{}.{}", b, g.pick(&gb)),
+                        1 if !rows.is_empty() => format!("h{}", g.pick(&rows).0),
+                        _ => format!("a{}.0", b),
+                    };
+                    let what = match g.weighted(&[4, 2, 2]) {
+                        0 => format!("g7.u={}+", me),
+                        1 => format!("g7.r={}:1:1", 1 + g.below(3)),
+                        _ => format!("g7.ua={}+", me),
+                    };
+                    writeln!(w, "rmut k={} d={} r={} grp=7 g7.id={} {}", me, d, a, target, what).unwrap();
+                    for r in 0..nrooms {
+                        writeln!(w, "rstored r={}", r).unwrap();
+                    }
+                    continue;
+                }
                 // the room definition changes: users disabled / enabled, rights replaced, admins changed
                 let r = g.below(nrooms as usize);
                 if !user_admins[r].is_empty() && g.chance(2, 5) {
@@ -700,6 +731,7 @@ pub fn c01_case(g: &mut Gen, id: u64, w: &mut impl Write, long: bool, peer: bool
     }
     for r in 0..nrooms {
         writeln!(w, "robs r={}", r).unwrap();
+        writeln!(w, "rstored r={}", r).unwrap();
     }
 }
 
